@@ -441,6 +441,28 @@ func c18SizeEdge(c *rt.Ctx, L int) {
 			sub++
 		}
 	}
+	if L == 1021 || L == 2047 || L == 4095 {
+		// valid texts whose \u escapes (single, surrogate pair) straddle the end of a read of the
+		// stream decoder behind Valid and HTMLEscape, after zero to three two-character escapes
+		// decoded in the same buffer fill
+		const bs = "\\"
+		for _, boundary := range []int{511, 1023, 1535} {
+			for pre := 0; pre <= 3; pre++ {
+				for off := -13; off <= 1; off++ {
+					for _, esc := range []string{bs + "u00e9", bs + "ud83d" + bs + "ude00", bs + "u003c"} {
+						head := `["` + strings.Repeat(bs+"n", pre)
+						padn := boundary + off - len(head)
+						if padn < 0 {
+							continue
+						}
+						text := head + strings.Repeat("p", padn) + esc + `tail",{"k":"` + esc + `"}]`
+						c18Check(c, sub, []byte(text))
+						sub++
+					}
+				}
+			}
+		}
+	}
 	c.NonTrivialEnum(int64(sub))
 	c.Obs("size_edge_texts", int64(sub))
 	c.SetAdd("size_edge_lengths", fmt.Sprint(L))
